@@ -13,6 +13,15 @@ first registration.  Ops (ctx = number of the task that runs the op; task 0 exis
   ["cmd", ctx, name, [key..]]             one public command (see INVOKE) run by that task
   ["dec", ctx, kind, key, n]              n calls of a fresh function decorated with cache.<kind>(key=key...)
   ["isfull", ctx]                         cache.is_full_disable
+  ["cdef", ctx, fid, kind, keybase]       task ctx decorates a fresh function (CDECORATORS[kind], key template
+                                          "<keybase>#<fid>:{x}") whose body parks on a gate until it is released
+  ["cstart", ctx, fid, call, arg]         task ctx does asyncio.create_task(f(arg)) - call number `call` - and lets it run
+                                          until it parks (in its body, behind another call, on a lock) or ends
+  ["cfin", ctx, call]                     the body that call `call` itself is executing (if any) is allowed to return
+At the end of a scenario every body still parked is released, oldest execution first, function by function.
+Executions are numbered per function in the order they start; a body returns "body<n>:<arg>", so every result
+identifies the execution that produced it; a ContextVar set by the calling task (inherited by the tasks cashews
+creates on its behalf) tells which call started which execution and which call issued which backend command.
 
 Everything a backend object (registered backend or transaction wrapper) is asked to do is logged with the
 nesting depth of the call, so that "which command was *issued by the facade*" (depth 0) can be told from
@@ -31,6 +40,7 @@ DFLT = type("CallerDefault", (), {"__repr__": lambda self: "<DFLT>"})()
 VAL = "written"
 
 _DEPTH: contextvars.ContextVar[int] = contextvars.ContextVar("c17_depth", default=0)
+_CALLID: contextvars.ContextVar = contextvars.ContextVar("c17_callid", default=None)
 _LOG: list | None = None
 
 GEN_CMDS = ("scan", "get_match")
@@ -84,6 +94,8 @@ class _Deep:
 
 def _entry(kind: str, obj, cmd: str, a, kw) -> dict:
     e = {"depth": _DEPTH.get(), "kind": kind, "b": obj._c17_id(), "cmd": cmd, "keys": keys_of(cmd, a, kw)}
+    if _CALLID.get() is not None:
+        e["call"] = _CALLID.get()
     if _LOG is not None:
         _LOG.append(e)
     return e
@@ -231,9 +243,98 @@ def make_decorated(cache, kind: str, key: str, counter: list):
     return lambda: f(1)
 
 
+# ---- overlapping calls of decorated functions ---------------------------------------------------------
+
+# kind -> (factory(cache, key_template), `protected` flag of the Lean model or None = property oracle only)
+CDECORATORS = {
+    "cache": (lambda c, k: c.cache(ttl=10, key=k), True),
+    "cache_unprot": (lambda c, k: c.cache(ttl=10, key=k, protected=False), False),
+    "cache_lock": (lambda c, k: c.cache(ttl=10, key=k, lock=True), None),
+    "cache_lock_unprot": (lambda c, k: c.cache(ttl=10, key=k, lock=True, protected=False), None),
+    "cache_upper": (lambda c, k: c.cache(ttl=10, key=k, upper=True), None),
+    "cache_upper_lock": (lambda c, k: c.cache(ttl=10, key=k, upper=True, lock=True), None),
+    "early": (lambda c, k: c.early(ttl=10, early_ttl=5, key=k, prefix=""), None),
+    "early_unprot": (lambda c, k: c.early(ttl=10, early_ttl=5, key=k, prefix="", protected=False), None),
+    "soft": (lambda c, k: c.soft(ttl=10, soft_ttl=5, key=k, prefix=""), None),
+    "soft_unprot": (lambda c, k: c.soft(ttl=10, soft_ttl=5, key=k, prefix="", protected=False), None),
+    "hit": (lambda c, k: c.hit(ttl=10, cache_hits=3, key=k, prefix=""), None),
+    "dynamic": (lambda c, k: c.dynamic(ttl=10, key=k, prefix=""), None),
+    "failover": (lambda c, k: c.failover(ttl=10, key=k, prefix=""), None),
+    "iterator": (lambda c, k: c.iterator(ttl=10, key=k), None),
+    "rate_limit": (lambda c, k: c.rate_limit(limit=100, period=10, key=k, prefix=""), None),
+    "slice_rate_limit": (lambda c, k: c.slice_rate_limit(limit=100, period=10, key=k, prefix=""), None),
+    "circuit_breaker": (lambda c, k: c.circuit_breaker(errors_rate=50, period=10, ttl=10, key=k, prefix=""), None),
+    "locked": (lambda c, k: c.locked(ttl=10, key=k, prefix=""), None),
+    "bloom": (lambda c, k: c.bloom(capacity=10, name=k, prefix=""), None),
+    "dual_bloom": (lambda c, k: c.dual_bloom(capacity=10, name=k, prefix=""), None),
+    "invalidate": (lambda c, k: c.invalidate(k), None),
+}
+# decorators that never hand one execution's result to another overlapping caller, whatever the control state:
+# no single-flight wrapper (thunder_protection) and no lock around a cache read
+# single-flight by design while the cache is not FULLY disabled: `protected=True` (thunder_protection) joins an
+# overlapping call with the same key to the one in flight, whatever commands are disabled (mirrored, not judged)
+COALESCING = ["cache", "cache_lock", "early", "soft"]
+ALWAYS_OWN = ["locked", "invalidate", "rate_limit", "slice_rate_limit", "circuit_breaker"]
+
+
+def ckey(keybase: str, fid: int, arg) -> str:
+    """cache key of `f(arg)` for the function `fid` decorated with the template of `ctemplate`"""
+    return f"{keybase}#{fid}:{arg}"
+
+
+def ctemplate(keybase: str, fid: int) -> str:
+    return f"{keybase}#{fid}:{{x}}"
+
+
+def make_cdecorated(cache, kind: str, template: str, rec: dict):
+    """a function decorated with CDECORATORS[kind]; every execution of its body registers itself in rec["execs"]
+    and parks on its own gate.  Returns call(arg) -> awaitable of the result (for iterators: the list of items)."""
+
+    def enter(x):
+        n = len(rec["execs"])
+        ex = {"n": n, "call": _CALLID.get(), "arg": x, "gate": asyncio.Event(), "released": False}
+        rec["execs"].append(ex)
+        return ex
+
+    async def body(x):
+        ex = enter(x)
+        await ex["gate"].wait()
+        return f"body{ex['n']}:{x}"
+
+    async def itbody(x):
+        ex = enter(x)
+        await ex["gate"].wait()
+        yield f"body{ex['n']}:{x}"
+        yield f"tail{ex['n']}:{x}"
+
+    mk = CDECORATORS[kind][0](cache, template)
+    if kind == "iterator":
+        f = mk(itbody)
+
+        async def call(x):
+            return [i async for i in f(x)]
+        return call
+    f = mk(body)
+    return f
+
+
+def exec_of(r):
+    """(execution number, argument) a result identifies, or None"""
+    if isinstance(r, list) and len(r) == 2 and isinstance(r[0], str) and r[0].startswith("body") \
+            and r[1] == "tail" + r[0][4:]:
+        r = r[0]
+    if isinstance(r, str) and r.startswith("body") and ":" in r:
+        n, x = r[4:].split(":", 1)
+        if n.isdigit():
+            return int(n), x
+    return None
+
+
 # ---- executor ---------------------------------------------------------------------------------------
 
 VIEW_CMDS = ["get", "set", "get_many", "scan", "delete", "get_keys_count"]
+# the commands decorators read cached state with
+READ_CMDS = ["get", "get_many", "get_raw", "get_bits", "exists", "get_expire", "get_match", "scan", "is_locked"]
 
 
 def canon(v):
@@ -294,6 +395,95 @@ async def _execute(sc) -> list[dict]:
     queues: dict[int, asyncio.Queue] = {}
     tasks: dict[int, asyncio.Task] = {}
     state = {"cms": {}, "tx": {}, "txoff": {}}
+    cfns: dict[int, dict] = {}        # fid -> {"kind", "keybase", "call", "execs": [...]}
+    ccalls: dict[int, dict] = {}      # call -> {"fid", "ctx", "arg", "task", "full"}
+
+    def c_done():
+        return {c for c, d in ccalls.items() if d["task"].done()}
+
+    async def settle(rounds: int = 10):
+        """run the loop until nothing observable (executions started, calls ended) changes for `rounds` iterations"""
+        sig, quiet = None, 0
+        for _ in range(600):
+            await asyncio.sleep(0)
+            cur = (sum(len(r["execs"]) for r in cfns.values()), len(c_done()))
+            if cur == sig:
+                quiet += 1
+                if quiet >= rounds:
+                    return
+            else:
+                sig, quiet = cur, 0
+        raise HarnessError("overlapping decorated calls never settle")
+
+    def outcome(call: int) -> dict:
+        t = ccalls[call]["task"]
+        if not t.done():
+            return {"exc": "HANG"}
+        if t.cancelled():
+            return {"exc": "HANG"}
+        exc = t.exception()
+        if exc is None:
+            r = t.result()
+            out = {"r": canon(r)}
+            ex = exec_of(r)
+            if ex is not None:
+                out["exec"], out["arg"] = ex
+            return out
+        if isinstance(exc, NotConfiguredError):
+            return {"exc": "NC"}
+        return {"exc": type(exc).__name__}
+
+    def release_of(call: int):
+        """the oldest parked execution that call `call` itself started"""
+        rec = cfns[ccalls[call]["fid"]]
+        for ex in rec["execs"]:
+            if ex["call"] == call and not ex["released"]:
+                return ex
+        return None
+
+    async def c_finish(call: int) -> dict:
+        fid = ccalls[call]["fid"]
+        mine = {c for c, d in ccalls.items() if d["fid"] == fid}
+        before = c_done()
+        n0 = len(_LOG)
+        ex = release_of(call)
+        out = {"released": None}
+        if ex is not None:
+            ex["released"] = True
+            ex["gate"].set()
+            out["released"] = ex["n"]
+        await settle()
+        out["done"] = {str(c): outcome(c) for c in sorted((c_done() - before) & mine)}
+        out["log"] = [e for e in _LOG[n0:] if e.get("call") in mine]
+        return out
+
+    async def c_drain() -> dict:
+        """release every parked body, oldest execution first, function by function; what ended / was issued meanwhile"""
+        res = {}
+        for fid in sorted(cfns):
+            rec = cfns[fid]
+            mine = {c for c, d in ccalls.items() if d["fid"] == fid}
+            before = c_done()
+            n0 = len(_LOG)
+            waited = 0
+            while not mine <= c_done():
+                parked = [ex for ex in rec["execs"] if not ex["released"]]
+                if parked:
+                    parked[0]["released"] = True
+                    parked[0]["gate"].set()
+                    await settle()
+                elif waited < WATCHDOG * 8:
+                    waited += 1
+                    await asyncio.sleep(vtime.TICK)      # nothing parked: somebody waits for virtual time
+                    await settle(3)
+                else:
+                    break
+            for c in sorted(mine - c_done()):
+                ccalls[c]["task"].cancel()
+            await settle(3)
+            res[str(fid)] = {"done": {str(c): outcome(c) for c in sorted(mine - before)},
+                             "log": [e for e in _LOG[n0:] if e.get("call") in mine]}
+        return res
 
     def fully_off():
         return {bid for bid, b in backends.items() if b.is_full_disable}
@@ -374,6 +564,32 @@ async def _execute(sc) -> list[dict]:
                     out["log"] = _LOG[n0:]
                     out["execs"] = counter[0]
                 out["r"] = rs
+            elif kind == "cdef":
+                fid, dkind, keybase = op[2], op[3], op[4]
+                rec = {"kind": dkind, "keybase": keybase, "execs": []}
+                rec["call"] = make_cdecorated(cache, dkind, ctemplate(keybase, fid), rec)
+                cfns[fid] = rec
+                out["r"] = "ok"
+            elif kind == "cstart":
+                fid, call, arg = op[2], op[3], op[4]
+                rec = cfns[fid]
+                out["full"] = cache.is_full_disable
+                out["reads_off"] = all(
+                    all(b.is_disable(cmd_of[c]) for c in READ_CMDS) for b in backends.values())
+                out["in_flight"] = sorted(c for c, d in ccalls.items() if not d["task"].done())
+
+                async def runner():
+                    _CALLID.set(call)
+                    return await rec["call"](arg)
+
+                n0, e0 = len(_LOG), len(rec["execs"])
+                ccalls[call] = {"fid": fid, "ctx": ctx, "arg": arg, "full": out["full"],
+                                "task": asyncio.create_task(runner())}
+                await settle()
+                new = [ex["n"] for ex in rec["execs"][e0:] if ex["call"] == call]
+                out["exec"] = new[0] if new else None
+                out["done"] = outcome(call) if ccalls[call]["task"].done() else None
+                out["log"] = [e for e in _LOG[n0:] if e.get("call") == call]
             else:
                 raise HarnessError(f"bad op {op}")
         except NotConfiguredError:
@@ -417,18 +633,33 @@ async def _execute(sc) -> list[dict]:
             before = None
             if op[0] in ("fork", "disable", "enable", "enter", "exit"):
                 before = {c: await send(c, ["views"]) for c in sorted(queues)}
-            out = await send(ctx, op)
+            if op[0] == "cfin":
+                out = await c_finish(op[2])
+            else:
+                out = await send(ctx, op)
             if before is not None:
                 out["views_before"] = before
                 out["views_after"] = {c: await send(c, ["views"]) for c in sorted(queues)}
             steps.append(out)
+        drain = await c_drain()
+        cinfo = {str(c): {"fid": d["fid"], "ctx": d["ctx"], "arg": d["arg"], "full": d["full"], "out": outcome(c),
+                          "execs": [ex["n"] for ex in cfns[d["fid"]]["execs"] if ex["call"] == c]}
+                 for c, d in ccalls.items()}
+        finfo = {str(f): {"kind": r["kind"], "execs": [[ex["n"], ex["call"], ex["arg"]] for ex in r["execs"]]}
+                 for f, r in cfns.items()}
     finally:
+        for d in ccalls.values():
+            if not d["task"].done():
+                d["task"].cancel()
+        for r in cfns.values():
+            for ex in r["execs"]:
+                ex["gate"].set()
         for c in sorted(queues, reverse=True):
             if not tasks[c].done():
                 await send(c, None)
         stores = {bid: sorted(b.store.keys()) for bid, b in backends.items()}
         _LOG = None
-    return [{"steps": steps, "stores": stores, "sample": sample}]
+    return [{"steps": steps, "stores": stores, "sample": sample, "drain": drain, "ccalls": cinfo, "cfns": finfo}]
 
 
 def execute(sc) -> dict:
